@@ -26,6 +26,7 @@ declare -A ALSO=(
   [C15-selection-narrows-cached-document]="C03"
   [C02-bindargs-schema-order-index]="C17"
   [C08-query-exec-shared-payload-buffer]="C13"
+  [C06-deferred-closure-uses-outer-ctx]="C13"
 )
 echo "# Seeded changes vs. the checks ($tier tier, $(date -u +%FT%TZ), /repo $(git -C /repo log --format=%h -1))" > $out
 echo >> $out
